@@ -206,6 +206,17 @@ def register(lib):
     E['concurrent.futures.wait'] = cf_wait
     E['concurrent.futures.as_completed'] = lambda I, futs, **k: list(lib.concrete_iter(I, futs) or [])
 
+    # ------------------------------------------------------------------ queue.Queue as seen by a producer (C01/C16/C20)
+    def q_put(I, q, item, *a, **k):
+        c = cur()
+        from . import loops
+        ev = dict(item=untag(item), loopvars=[(v.z, v.n) for v in loops.active_vars()], seq=len(c.ghost.setdefault('puts', [])))
+        c.ghost['puts'].append(ev)
+        hook = q.fields.get('on_put')
+        if hook:
+            hook(c, ev)
+    M[('$queue', 'put')] = q_put
+
     # ------------------------------------------------------------------ hashlib (AX-SHA1)
     def hash_new(I, name, *a):
         use_axiom('AX-SHA1')
@@ -217,7 +228,13 @@ def register(lib):
     E['hashlib.sha1'] = lambda I, *a: hash_new(I, 'sha1')
 
     def hash_update(I, h, data):
-        h.fields['log'].append(untag(data))
+        c = cur()
+        from . import loops
+        ev = dict(data=untag(data), loopvars=[(v.z, v.n) for v in loops.active_vars()], seq=len(h.fields['log']))
+        h.fields['log'].append(ev)
+        hook = h.fields.get('on_update')
+        if hook:
+            hook(c, ev)
     M[('$hash', 'update')] = hash_update
 
     def hash_digest(I, h):
